@@ -40,6 +40,43 @@ var c04Subnets = []string{
 	"2001:db8::/32", "2001:db8:1::/48", "0.0.0.0/0", "::/0", "fe80::/64",
 }
 
+// The same network spelled with different host bits: netip.ParsePrefix and
+// Persistent.SetIDs keep the host bits, the index keys its subnet map by the
+// exact prefix (address as spelled, bits) and orders it by subnetCompare on the
+// UNMASKED address, while netip.Prefix.Contains masks.  Three spellings per
+// network (so that a comparator which identifies them collides more than once)
+// and addresses inside the network.
+type c04NCGroup struct {
+	spell  []string
+	inside []string
+}
+
+var c04NCGroups = []c04NCGroup{
+	{[]string{"192.168.1.1/24", "192.168.1.0/24", "192.168.1.200/24"}, []string{"192.168.1.77", "192.168.1.1"}},
+	{[]string{"172.16.5.9/16", "172.16.0.0/16", "172.16.255.255/16"}, []string{"172.16.200.1"}},
+	{[]string{"10.0.0.0/8", "10.2.0.0/8", "10.255.0.1/8"}, []string{"10.200.0.1", "10.1.2.77"}},
+	{[]string{"2001:db8:2:3::1/64", "2001:db8:2:3::/64", "2001:db8:2:3:ffff::/64"}, []string{"2001:db8:2:3::77"}},
+	{[]string{"2001:db8:7:ffff::/48", "2001:db8:7::/48", "2001:db8:7:1::1/48"}, []string{"2001:db8:7:1::99"}},
+}
+
+// c04NCInside lists the inside addresses of every group one of whose spellings
+// is in ids, and those spellings.
+func c04NCInside(ids []string) (inside, spellings []string) {
+	for _, g := range c04NCGroups {
+		hit := false
+		for _, sp := range g.spell {
+			if slices.Contains(ids, sp) {
+				hit = true
+				spellings = append(spellings, sp)
+			}
+		}
+		if hit {
+			inside = append(inside, g.inside...)
+		}
+	}
+	return inside, spellings
+}
+
 var c04MACs = []string{
 	"aa:bb:cc:dd:ee:01", "aa:bb:cc:dd:ee:02",
 	"02-00-5e-10-00-00-00-01", // 8 bytes; the colon form parses as an IPv6 address
@@ -571,6 +608,7 @@ type c04Hist struct {
 	cls    map[string]bool
 	monMsg string
 	monKey string
+	monAt  int // number of recorded steps before the failing one
 	nOK    map[string]int
 	prev   string
 	moved  map[string]uint64 // identifier -> last owner uid (for the id-move class)
@@ -586,6 +624,13 @@ type c04Hist struct {
 	addrs  map[string]bool
 	aprev  string
 	nRetry int
+
+	// same-network spellings of the universe, addresses inside those networks,
+	// the networks two clients held after the previous step, what was seen
+	ncIDs    []string
+	ncInside []netip.Addr
+	shared   map[netip.Prefix]bool
+	notes    []string
 }
 
 func c04NewHist(t *testing.T, r *vfRand, ids []string) *c04Hist {
@@ -628,6 +673,15 @@ func c04NewHist(t *testing.T, r *vfRand, ids []string) *c04Hist {
 			break
 		}
 	}
+	ncIn, ncSp := c04NCInside(ids)
+	h.ncIDs = ncSp
+	for _, in := range ncIn {
+		if !slices.Contains(spell, in) {
+			spell = append(spell, in)
+		}
+		h.ncInside = append(h.ncInside, netip.MustParseAddr(in))
+	}
+	h.shared = map[netip.Prefix]bool{}
 	for _, sp := range spell {
 		if strings.Contains(sp, "/") {
 			continue
@@ -658,6 +712,12 @@ func c04NewHist(t *testing.T, r *vfRand, ids []string) *c04Hist {
 	cids = append(cids, "", "", "", "other")
 	for i := 0; i < 7; i++ {
 		h.pairs = append(h.pairs, c04Pair{cid: vfPick(r, cids), a: vfPick(r, addrs)})
+	}
+	// a universe with same-network spellings: two of the pairs are requests
+	// from inside such a network without a ClientID
+	if len(h.ncInside) > 0 && len(ncSp) > 1 {
+		h.pairs[5] = c04Pair{cid: "", a: vfPick(r, h.ncInside)}
+		h.pairs[6] = c04Pair{cid: vfPick(r, cids), a: vfPick(r, h.ncInside)}
 	}
 	h.glob = filtering.Settings{FilteringEnabled: r.Bool(), SafeSearchEnabled: r.Bool(), SafeBrowsingEnabled: r.Bool(),
 		ParentalEnabled: r.Bool()}
@@ -781,7 +841,7 @@ func (h *c04Hist) monitorAAF(t0 time.Time, got []*filtering.Settings) {
 
 func (h *c04Hist) fail(key, msg string) {
 	if h.monMsg == "" {
-		h.monMsg, h.monKey = msg, key
+		h.monMsg, h.monKey, h.monAt = msg, key, len(h.desc)
 	}
 }
 
@@ -797,6 +857,25 @@ func (h *c04Hist) safeFind(raw string) (p *Persistent, ok bool) {
 	return h.s.Find(raw)
 }
 
+func (h *c04Hist) safeFindByName(n string) (p *Persistent, ok bool) {
+	defer func() {
+		if rec := recover(); rec != nil {
+			h.fail("findbyname-panic", fmt.Sprintf("FindByName(%q) panicked: %v", n, rec))
+			p, ok = nil, false
+		}
+	}()
+	return h.s.FindByName(n)
+}
+
+func (h *c04Hist) safeRange(f func(c *Persistent) bool) {
+	defer func() {
+		if rec := recover(); rec != nil {
+			h.fail("range-panic", fmt.Sprintf("RangeByName panicked: %v", rec))
+		}
+	}()
+	h.s.RangeByName(f)
+}
+
 func (h *c04Hist) observe() string {
 	finds := make([]string, len(h.probes))
 	for i, pr := range h.probes {
@@ -809,7 +888,7 @@ func (h *c04Hist) observe() string {
 	}
 	names := make([]string, len(c04Names))
 	for i, n := range c04Names {
-		p, ok := h.s.FindByName(n)
+		p, ok := h.safeFindByName(n)
 		if ok && p != nil {
 			names[i] = vfOpt("N * N", true, vfPair(vfN(h.uids.num(p.UID)), vfN(uint64(p.IDsLen()))))
 		} else {
@@ -817,7 +896,7 @@ func (h *c04Hist) observe() string {
 		}
 	}
 	var rng []string
-	h.s.RangeByName(func(c *Persistent) bool { rng = append(rng, vfBytes(c.Name)); return true })
+	h.safeRange(func(c *Persistent) bool { rng = append(rng, vfBytes(c.Name)); return true })
 	acfs := make([]string, len(h.pairs))
 	for i, q := range h.pairs {
 		setts := h.applyACF(q)
@@ -844,7 +923,152 @@ func (h *c04Hist) applyACF(q c04Pair) (setts *filtering.Settings) {
 }
 
 // monitor states the property on the real storage, against the reference map.
+// A panic of the registry while it is examined (an index left inconsistent by
+// an earlier operation) is a failure of this history, not of the test run.
 func (h *c04Hist) monitor(opDesc string, errClass int) {
+	defer func() {
+		if rec := recover(); rec != nil {
+			h.fail("registry-panic", fmt.Sprintf("after %s the registry panicked while being examined: %v", opDesc, rec))
+		}
+	}()
+	h.monitorState(opDesc, errClass)
+	h.monitorCIDR(opDesc)
+}
+
+type c04Net struct {
+	owner string
+	s     netip.Prefix
+}
+
+// nets lists every stored subnet with its owner, in a fixed order.
+func (r *c04Ref) nets() (res []c04Net) {
+	for n, p := range r.byName {
+		for _, s := range p.Subnets {
+			res = append(res, c04Net{n, s})
+		}
+	}
+	sort.Slice(res, func(i, j int) bool {
+		if res[i].owner != res[j].owner {
+			return res[i].owner < res[j].owner
+		}
+		return res[i].s.String() < res[j].s.String()
+	})
+	return res
+}
+
+// monitorCIDR: CIDR identifiers as the registry treats them (the exact
+// spelling, host bits included, is the identifier; matching masks).
+//
+//   - Whatever the spellings, an address without a ClientID / exact-address
+//     owner that lies inside a stored CIDR resolves to SOME client that lists a
+//     containing CIDR of the greatest stored length (no reference to the order
+//     among equally long ones), for Find and ApplyClientFiltering.
+//   - Branch classes: a stored prefix with host bits; two clients holding
+//     spellings of one network; one of them gone (removed / updated away) while
+//     the other still lists its spelling.
+//   - Observation kept in the case description: two clients own the same
+//     network under different spellings (accepted by the exact-prefix clash
+//     check), and who answers for an address inside.
+func (h *c04Hist) monitorCIDR(opDesc string) {
+	nets := h.ref.nets()
+	byNet := map[netip.Prefix]map[string]bool{}
+	for _, n := range nets {
+		if n.s != n.s.Masked() {
+			h.cls["cidr-noncanonical"] = true
+		}
+		m := n.s.Masked()
+		if byNet[m] == nil {
+			byNet[m] = map[string]bool{}
+		}
+		byNet[m][n.owner] = true
+	}
+	now := map[netip.Prefix]bool{}
+	for _, n := range nets {
+		m := n.s.Masked()
+		if len(byNet[m]) > 1 && !now[m] {
+			now[m] = true
+			h.cls["cidr-same-network-two-clients"] = true
+			if !h.shared[m] && len(h.notes) < 6 {
+				var sp []string
+				for _, o := range nets {
+					if o.s.Masked() == m {
+						sp = append(sp, o.owner+":"+o.s.String())
+					}
+				}
+				who := ""
+				for _, in := range h.ncInside {
+					if m.Contains(in) {
+						got, ok := h.safeFind(in.String())
+						who = fmt.Sprintf("; Find(%v) -> %q", in, "")
+						if ok && got != nil {
+							who = fmt.Sprintf("; Find(%v) -> %q", in, got.Name)
+						}
+						break
+					}
+				}
+				h.notes = append(h.notes, fmt.Sprintf("after %s network %v is owned by %v%s", opDesc, m, sp, who))
+			}
+		}
+	}
+	for m := range h.shared {
+		if !now[m] && len(byNet[m]) == 1 {
+			h.cls["cidr-same-network-after-remove"] = true
+		}
+	}
+	h.shared = now
+
+	live := func(what string, a netip.Addr, got string) {
+		if !a.IsValid() {
+			return
+		}
+		a0, best := a.WithZone(""), -1
+		var bestS netip.Prefix
+		for _, n := range nets {
+			if n.s.Contains(a0) && n.s.Bits() > best {
+				best, bestS = n.s.Bits(), n.s
+			}
+		}
+		if best < 0 {
+			return
+		}
+		if got == "" {
+			h.fail("cidr-not-resolved", fmt.Sprintf("after %s %s resolves to nobody although the stored CIDR %v contains the address", opDesc, what, bestS))
+			return
+		}
+		c := h.ref.byName[got]
+		if c == nil {
+			h.fail("cidr-resolved-to-stranger", fmt.Sprintf("after %s %s resolves to %q, which is not a current client", opDesc, what, got))
+			return
+		}
+		for _, s := range c.Subnets {
+			if s.Contains(a0) && s.Bits() == best {
+				return
+			}
+		}
+		h.fail("cidr-not-most-specific", fmt.Sprintf("after %s %s resolves to %q, which lists no containing CIDR of length %d (%v is stored)", opDesc, what, got, best, bestS))
+	}
+	for _, pr := range h.probes {
+		if !pr.ipOK || h.ref.owner("ip:"+pr.ip.String()) != nil {
+			continue
+		}
+		got, ok := h.safeFind(pr.raw)
+		gn := ""
+		if ok && got != nil {
+			gn = got.Name
+		}
+		live(fmt.Sprintf("Find(%q)", pr.raw), pr.ip, gn)
+	}
+	for _, q := range h.pairs {
+		if !q.a.IsValid() || h.ref.owner("ip:"+q.a.String()) != nil || (q.cid != "" && h.ref.owner("cid:"+q.cid) != nil) {
+			continue
+		}
+		if g := h.applyACF(q); g != nil {
+			live(fmt.Sprintf("ApplyClientFiltering(%q, %v)", q.cid, q.a), q.a, g.ClientName)
+		}
+	}
+}
+
+func (h *c04Hist) monitorState(opDesc string, errClass int) {
 	obs := h.observe()
 	if errClass != 0 && obs != h.prev {
 		h.fail("failed-op-changed-state", fmt.Sprintf("after rejected %s the registry answers differently", opDesc))
@@ -922,7 +1146,7 @@ func (h *c04Hist) monitor(opDesc string, errClass int) {
 	}
 	sort.Strings(wantNames)
 	var gotNames []string
-	h.s.RangeByName(func(c *Persistent) bool {
+	h.safeRange(func(c *Persistent) bool {
 		gotNames = append(gotNames, c.Name)
 		if rp := h.ref.byName[c.Name]; rp != nil {
 			a, b := c04Keys(c), c04Keys(rp)
@@ -938,7 +1162,7 @@ func (h *c04Hist) monitor(opDesc string, errClass int) {
 		h.fail("range-differs", fmt.Sprintf("after %s RangeByName gives %v, clients are %v", opDesc, gotNames, wantNames))
 	}
 	for _, n := range c04Names {
-		p, ok := h.s.FindByName(n)
+		p, ok := h.safeFindByName(n)
 		if (h.ref.byName[n] != nil) != ok || (ok && p.Name != n) {
 			h.fail("name-resolves-wrong", fmt.Sprintf("after %s FindByName(%q) found=%v", opDesc, n, ok))
 		}
@@ -1024,6 +1248,7 @@ func (h *c04Hist) add(p *Persistent) {
 	h.noteTokens(p)
 	err, panicked := h.guard(func() error { return h.s.Add(context.Background(), p) })
 	if panicked {
+		h.unexplainedPanic(desc, p)
 		h.record(coq, desc, 11)
 		return
 	}
@@ -1043,6 +1268,7 @@ func (h *c04Hist) update(name string, p *Persistent) {
 	h.noteTokens(p)
 	err, panicked := h.guard(func() error { return h.s.Update(context.Background(), name, p) })
 	if panicked {
+		h.unexplainedPanic(desc, p)
 		h.record(coq, desc, 11)
 		return
 	}
@@ -1064,6 +1290,18 @@ func (h *c04Hist) update(name string, p *Persistent) {
 		h.noteOwned(p)
 	}
 	h.record(coq, desc, c04ErrClass(err))
+}
+
+// unexplainedPanic: the only panic of add / update that is an observation and
+// not a failure is dnsproxy's on a domain specification line (err-panic); a
+// record without such a line must not make the registry panic.
+func (h *c04Hist) unexplainedPanic(desc string, p *Persistent) {
+	for _, l := range p.Upstreams {
+		if strings.HasPrefix(l, "[/") {
+			return
+		}
+	}
+	h.fail("op-panic", fmt.Sprintf("%s panicked", desc))
 }
 
 func (h *c04Hist) guard(f func() error) (err error, panicked bool) {
@@ -1128,7 +1366,13 @@ func (h *c04Hist) setGlobal(b *filtering.BlockedServices) {
 
 func (h *c04Hist) remove(name string) {
 	coq := vfApp("HOp", vfApp("ORemove", vfBytes(name)))
-	ok := h.s.RemoveByName(context.Background(), name)
+	ok := false
+	_, panicked := h.guard(func() error { ok = h.s.RemoveByName(context.Background(), name); return nil })
+	if panicked {
+		h.fail("remove-panic", fmt.Sprintf("remove %s panicked", name))
+		h.record(coq, "remove "+name, 11)
+		return
+	}
 	ec := 0
 	if !ok {
 		ec = 8
@@ -1236,11 +1480,20 @@ func (h *c04Hist) emit(out *vfOut, tag string) {
 			nFail++
 		}
 	}
+	desc := map[string]any{"kind": tag, "ops": h.desc}
+	if len(h.notes) > 0 {
+		desc["same_network_two_clients"] = h.notes
+	}
 	c := vfCase{Coq: coq, Classes: classes, MonitorOK: h.monMsg == "", MonitorMsg: h.monMsg,
 		Nontrivial: nFail > 0 && h.nOK["update"]+h.nOK["remove"] > 0,
-		Desc:       map[string]any{"kind": tag, "ops": h.desc}}
+		Desc:       desc}
 	if h.monMsg != "" {
 		c.FindingKey = "C04-" + h.monKey
+		hist := strings.Join(h.desc[:min(h.monAt+1, len(h.desc))], "; ")
+		if len(hist) > 1200 {
+			hist = hist[:1200] + " ..."
+		}
+		c.MonitorMsg += " || history (" + tag + "): " + hist
 	}
 	out.Emit(c)
 }
@@ -1259,6 +1512,9 @@ func (h *c04Hist) randClient() *Persistent {
 	var ids []string
 	for i := 0; i < n; i++ {
 		ids = append(ids, vfPick(r, h.ids))
+	}
+	if len(h.ncIDs) > 1 && r.Chance(1, 2) {
+		ids = append(ids, vfPick(r, h.ncIDs))
 	}
 	return c04Mk(name, c04Dedup(ids), r)
 }
@@ -1359,10 +1615,20 @@ func c04Universe(r *vfRand) (ids []string) {
 		pick(c04IPs, 1)
 		ids = append(ids, "fe80::/64")
 		pick(c04Subnets[:len(c04Subnets)-1], 2)
+	} else if r.Chance(1, 3) {
+		// one or two networks in two or three spellings each
+		pick(c04IPs, 2)
+		pick(c04Subnets, 2)
+		gs := append([]c04NCGroup{}, c04NCGroups...)
+		vfShuffle(r, gs)
+		for _, g := range gs[:1+r.Intn(2)] {
+			pick(g.spell, 2+r.Intn(2))
+		}
 	} else {
 		pick(c04IPs, 2+r.Intn(2))
 		pick(c04Subnets, 3+r.Intn(2))
 	}
+	ids = c04Dedup(ids)
 	pick(c04MACs, 2+r.Intn(2))
 	pick(c04CIDs, 1+r.Intn(2))
 	return ids
@@ -1535,6 +1801,45 @@ func c04Prelude(t *testing.T, out *vfOut) {
 	h.update("c", ownB(c04Mk("c", []string{"10.7.7.7"}, nil), true, bs(never, 0, "never")))               // own empty list
 	h.remove("a")
 	h.emit(out, "prelude-services")
+
+	// one network under several spellings (host bits kept by ParsePrefix /
+	// SetIDs): the spellings are different identifiers, so two clients may hold
+	// one each; the one that sorts first (unmasked address) answers; when its
+	// owner is removed, renamed or updated away the other spelling answers.
+	// v4 /24 /16 /8, v6 /64 /48; the same spelling twice is still a clash.
+	var ncAll []string
+	for _, g := range c04NCGroups {
+		ncAll = append(ncAll, g.spell...)
+	}
+	ncAll = append(ncAll, "192.168.1.5", "10.1.2.3", "cli1", "aa:bb:cc:dd:ee:01")
+	h = c04NewHist(t, r.Fork(7), ncAll)
+	h.pairs = []c04Pair{
+		{"", netip.MustParseAddr("192.168.1.77")}, {"", netip.MustParseAddr("172.16.200.1")},
+		{"", netip.MustParseAddr("10.200.0.1")}, {"", netip.MustParseAddr("2001:db8:2:3::77")},
+		{"", netip.MustParseAddr("2001:db8:7:1::99")}, {"cli1", netip.MustParseAddr("192.168.1.77")},
+		{"", netip.MustParseAddr("192.168.1.5")}, {"", netip.MustParseAddr("8.8.8.8")},
+	}
+	h.prev = h.observe()
+	h.add(c04Mk("a", []string{"192.168.1.1/24", "2001:db8:2:3::1/64"}, nil))
+	h.add(c04Mk("b", []string{"192.168.1.0/24", "2001:db8:2:3::/64"}, nil)) // other spellings: accepted
+	h.add(c04Mk("c", []string{"192.168.1.1/24"}, nil))                       // same spelling: clash
+	h.remove("a")                                                            // b's spellings still answer
+	h.add(c04Mk("a", []string{"192.168.1.200/24", "172.16.5.9/16", "10.2.0.0/8"}, nil))
+	h.remove("b") // a's spellings answer
+	h.add(c04Mk("b", []string{"192.168.1.0/24", "172.16.0.0/16", "10.0.0.0/8", "192.168.1.5"}, nil))
+	h.add(c04Mk("c", []string{"192.168.1.1/24", "172.16.255.255/16", "10.255.0.1/8", "cli1"}, nil)) // three spellings, three clients
+	h.update("b", c04Mk("b", []string{"192.168.1.0/24"}, nil))                                       // drops the first-sorting /16 and /8
+	h.update("a", c04Mk("d", []string{"192.168.1.200/24", "172.16.5.9/16", "10.2.0.0/8"}, nil))      // rename, same identifiers
+	h.update("c", c04Mk("c", []string{"192.168.1.0/24"}, nil))                                       // b's exact spelling: clash
+	h.update("c", c04Mk("c", []string{"2001:db8:7:ffff::/48", "2001:db8:7::/48"}, nil))              // one client, two spellings
+	h.add(c04Mk("a", []string{"2001:db8:7:1::1/48", "192.168.1.1/24"}, nil))
+	h.update("a", c04Mk("a", []string{"2001:db8:7:1::1/48", "192.168.1.0/24"}, nil)) // respell onto b's: clash
+	h.update("a", c04Mk("a", []string{"2001:db8:7:1::1/48", "192.168.1.200/24"}, nil)) // onto d's: clash
+	h.remove("c")
+	h.remove("d")
+	h.remove("b")
+	h.remove("a")
+	h.emit(out, "prelude-noncanonical")
 }
 
 func TestVerifC04(t *testing.T) {
